@@ -249,26 +249,6 @@ def fold_agree(rep, prog, rule="FOLD-AGREE"):
         rep.ok(rule, "sort key fold", how="str::to_ascii_lowercase", loc=k[0].loc())
     else:
         rep.violation(rule, "sort key fold", "ZoneInfoName::new builds its key with %s; the comparator folds to ASCII lower case" % kf, k[0].loc())
-    # special-cased names (UTC, Etc/Unknown) in the back-ends' get(): compared like every other name, ignoring ASCII case
-    for g in sorted(prog.fns.values(), key=lambda g: g.key):
-        if g.crate != "jiff" or g.is_closure or not (g.path.startswith("tz::db::") and g.path.endswith("::Database::get")):
-            continue
-        T = Terms(g)
-        exact = []
-        for bi, t in mir.iter_calls(g):
-            pth = t.get("path", "")
-            if re.search(r"PartialEq<.*>.*::eq$|PartialEq>::eq$", pth) and t.get("args"):
-                a0 = T.at_call(bi, t, 0)
-                a1 = T.at_call(bi, t, 1) if len(t["args"]) > 1 else None
-                if any(x[0] == "param" and x[2] == "query" for x in (a0, a1) if x):
-                    exact.append(t["span"]["line"])
-        key = "special names in " + g.path.split("::")[-4] + " get"
-        if exact:
-            rep.violation(rule, key, "the query is compared with a name by `==` at line(s) %s: \"utc\" then falls through to the ordinary "
-                          "case-insensitive lookup and yields a different (TZif-backed) zone than \"UTC\", so a printed zone does not "
-                          "parse back to an equal one" % exact, g.loc())
-        else:
-            rep.ok(rule, key, how="no case-sensitive comparison of the query", loc=g.loc())
     o = [g for g in prog.fns.values() if g.crate == "jiff" and "ZoneInfoName as core::cmp::Ord>::cmp" in g.path]
     if o:
         T = Terms(o[0])
@@ -280,6 +260,58 @@ def fold_agree(rep, prog, rule="FOLD-AGREE"):
             rep.violation(rule, "order", "Ord for ZoneInfoName compares fields %s, expected `lower`" % sorted(fields), o[0].loc())
     else:
         rep.anchor_missing("Ord for ZoneInfoName")
+
+
+
+def special_names(rep, progs, rule="SPECIAL-NAMES"):
+    """sibling agreement of the database back-ends on the names they special-case"""
+    rep.rule(rule, "the back-ends' Database::get (zoneinfo, concatenated, bundled) are siblings behind TimeZoneDatabase::get: the names "
+                   "they answer without consulting their data (\"UTC\" -> TimeZone::UTC, \"Etc/Unknown\" -> TimeZone::unknown()) are "
+                   "compared like every other name, ignoring ASCII case (no `==` on the query), and every enabled back-end "
+                   "special-cases the same set of names: otherwise the same name yields different (unequal) zone values depending on "
+                   "the back-end or on its spelling, and a printed zone does not parse back to an equal one")
+    seen = {}
+    for cfg, prog in progs:
+        for g in sorted(prog.fns.values(), key=lambda g: g.key):
+            if g.crate != "jiff" or g.is_closure or not (g.path.startswith("tz::db::") and g.path.endswith("::Database::get")):
+                continue
+            calls = list(mir.iter_calls(g))
+            if not calls:
+                continue   # the disabled stub of a back-end that is compiled out
+            backend = g.path.split("::")[-4]
+            if backend in seen:
+                continue
+            T = Terms(g)
+            exact, names = [], set()
+            for bi, t in calls:
+                pth = t.get("path", "")
+                if not t.get("args") or len(t["args"]) < 2:
+                    continue
+                a0, a1 = T.at_call(bi, t, 0), T.at_call(bi, t, 1)
+                if not any(x and x[0] == "param" and x[1] == 2 for x in (a0, a1)):
+                    continue
+                if re.search(r"PartialEq<.*>.*::(eq|ne)$|PartialEq>::(eq|ne)$", pth):
+                    exact.append(t["span"]["line"])
+                elif pth.endswith("eq_ignore_ascii_case"):
+                    names |= {x[1] for x in (a0, a1) if x and x[0] == "const"}
+            seen[backend] = (names, g.loc(), cfg)
+            key = "special names in " + backend + " get"
+            if exact:
+                rep.violation(rule, key, "the query is compared with a name by `==` at line(s) %s: another spelling (\"utc\", \"etc/unknown\") "
+                              "then falls through to the ordinary case-insensitive lookup and yields a different zone value (or none) "
+                              "than the canonical spelling" % exact, g.loc())
+            else:
+                rep.ok(rule, key, how="no case-sensitive comparison of the query; special-cased %s (%s)" % (sorted(names), cfg), loc=g.loc())
+    rep.floor(rule + " back-ends", len(seen), 2)
+    union = set().union(*[v[0] for v in seen.values()]) if seen else set()
+    for backend, (names, loc, cfg) in sorted(seen.items()):
+        key = "special names agree: " + backend
+        if names == union:
+            rep.ok(rule, key, how="%s" % sorted(names), loc=loc)
+        else:
+            rep.violation(rule, key, "the %s back-end does not special-case %s (case-insensitively) while a sibling back-end does: "
+                          "TimeZoneDatabase::get of that name returns a TZif-backed or no zone here and the special constant there"
+                          % (backend, sorted(union - names)), loc)
 
 
 def handover(rep, prog, rule="HANDOVER"):
